@@ -117,6 +117,10 @@ def eval_case(case):
         if case["out"] == "file":
             apath = os.path.join(odir, "my-archive.tar.gz")
             argv += ["-o", apath]
+        elif case["out"] == "relcolon":
+            # a relative archive name with a time in it ("results 12:30.tar.gz"): tar takes host:file for a remote archive
+            apath = os.path.join(pr.root, "results 12:30.tar.gz")
+            argv += ["-o", "results 12:30.tar.gz"]
         elif case["out"] == "dir":
             argv += ["-o", odir]
             apath = None
@@ -159,6 +163,8 @@ def eval_case(case):
             return out
         keep = os.path.join(sc.root, "kept.tar.gz")
         shutil.copy(apath, keep)
+        if case["out"] == "relcolon":
+            os.unlink(apath)   # (it sits in the project root, not in cond-out; keep the project as it was)
         # ---- restore
         if case["into"] == "clean":
             c = pr.cond(["clean", "-f"], timeout=60)
@@ -208,7 +214,13 @@ def eval_case(case):
                 dest.cond(["gc"], timeout=60)
             elif sorted(dest.rows()) == want and all(realrun.tree_hash(dest.out_dir(rr[0], rr[1])) == hashes[(rr[0], rr[1])] for rr in want):
                 pass
-        r2 = dest.cond(["restore", keep], timeout=120)
+        keep_arg = keep
+        if case["out"] == "relcolon":
+            shutil.copy(keep, os.path.join(dest.root, "back 12:30.tar.gz"))
+            keep_arg = "back 12:30.tar.gz"   # relative to the project root, where the command is started
+        r2 = dest.cond(["restore", keep_arg], timeout=120)
+        if case["out"] == "relcolon":
+            os.unlink(os.path.join(dest.root, "back 12:30.tar.gz"))
         if case.get("killed_restore_first") and r2.code != 0 and sorted(dest.rows()) == want:
             r2 = cli.CliResult(r2, exit=0)  # the retry above had already completed the restore: this one is rightly refused
             r2["stderr"] = ""
@@ -308,7 +320,7 @@ def main(tier, n=None):
     cases = []
     for i in range(total):
         cases.append({"seed": rng.randrange(1 << 30), "nruns": rng.randint(1, 4), "task": rng.choice([None, None, "//:g", "//:dd", "//a/b:e3", "//:k", "//c-d:e4", "//:d1", "//a:c1", "//c-d:solo", "//:plain"]),
-                      "latest": rng.random() < 0.4, "out": rng.choice(["file", "dir", "default"]), "into": rng.choice(["clean", "clone"]), "git": rng.random() < 0.4,
+                      "latest": rng.random() < 0.4, "out": rng.choice(["file", "file", "dir", "dir", "default", "default", "relcolon"]), "into": rng.choice(["clean", "clone"]), "git": rng.random() < 0.4,
                       "dangling": rng.random() < 0.25, "foreign": rng.random() < 0.35, "stale_archive_index": rng.random() < 0.3, "branch_switch": rng.random() < 0.4, "killed_restore_first": rng.random() < 0.25, "hostile": realrun.hostile_choice(rng)})
         if rng.random() < 0.5:
             # a random acyclic extension of the project; the archived task is then (mostly) the group over it
